@@ -64,6 +64,13 @@ enum GtSpec {
 #[derive(Clone, Debug)]
 struct RoundSpec {
     items: Vec<Item>,
+    /// a block of the second node confirms everything pooled so far (after `items`)
+    peer_block: bool,
+    /// the second chain [A', B'] on the tip's parent replaces the tip; A' spends the input of a
+    /// transaction pooled just before (after `items`)
+    fork: bool,
+    /// pooled after the peer block / the fork
+    items2: Vec<Item>,
     gt: GtSpec,
     /// offset of the bundle timestamp from the parent's timestamp (ms)
     gap: i64,
@@ -101,6 +108,8 @@ struct Rig {
     used: BTreeSet<SaitoUTXOSetKey>,
     stats: BTreeMap<String, u64>,
     debug: bool,
+    /// the longest chain, blocks as they were handed over (before add_block set in-memory flags)
+    history: Vec<Block>,
 }
 
 fn ty_code(t: TransactionType) -> &'static str {
@@ -184,6 +193,7 @@ impl Rig {
             used: BTreeSet::new(),
             stats: BTreeMap::new(),
             debug,
+            history: vec![g.clone()],
         };
         let a = bo(&r.rt, r.prod.add_block(g.clone()));
         let b = bo(&r.rt, r.peer.add_block(g));
@@ -422,6 +432,151 @@ impl Rig {
         log.push(format!("{{\"op\":\"golden-ticket\",\"kind\":\"{:?}\",\"tip_difficulty\":{}}}", spec, tip.difficulty));
     }
 
+    // ------------------------------------------------------------ blocks of other producers
+    fn needs_gt(node: &Node, parent: SaitoHash) -> bool {
+        !node.blockchain.is_golden_ticket_count_valid(parent, false, false, false)
+    }
+
+    /// the second node produces the next block and puts every pooled Normal transaction of the
+    /// producer into it (both nodes add it): the producer's pool is emptied by somebody else's block
+    fn do_peer_block(&mut self, log: &mut Vec<String>, findings: &mut Vec<(String, Option<&'static str>)>) {
+        if self.params.social_stake > 0 {
+            return;
+        }
+        let tip = self.tip();
+        let mut txs: Vec<Transaction> = self
+            .prod
+            .mempool
+            .transactions
+            .values()
+            .filter(|t| t.transaction_type == TransactionType::Normal)
+            .cloned()
+            .collect();
+        txs.sort_by_key(|t| t.signature);
+        // transactions that collide with a rebroadcast of this block would be left out: keep it simple
+        let src = self.rebroadcast_source();
+        txs.retain(|t| !t.from.iter().any(|s| s.amount > 0 && src > 0 && s.block_id == src));
+        if txs.is_empty() {
+            return;
+        }
+        self.nonce += 1;
+        let ts = tip.timestamp + 2 * self.params.heartbeat + 5_000;
+        let with_gt = Rig::needs_gt(&self.peer, tip.hash);
+        let n = txs.len();
+        let b = match bo(&self.rt, make_block(&self.peer, tip.hash, ts, txs, with_gt, self.nonce)) {
+            Ok(b) => b,
+            Err(e) => {
+                self.stat("peer-block:create-failed");
+                log.push(format!("{{\"op\":\"peer-block\",\"skipped\":{}}}", jstr(&e)));
+                return;
+            }
+        };
+        let r1 = bo(&self.rt, self.prod.add_block(b.clone()));
+        let r2 = bo(&self.rt, self.peer.add_block(b.clone()));
+        self.stat(&format!("peer-block:{:?}", r1));
+        log.push(format!("{{\"op\":\"peer-block-confirms-pool\",\"txs\":{},\"producer\":\"{:?}\",\"second\":\"{:?}\",\"pool_after\":{},\"cached_work_after\":{}}}", n, r1, r2, self.prod.mempool.transactions.len(), self.prod.mempool.get_routing_work_available()));
+        if r1 == AddClass::OnChain && r2 == AddClass::OnChain {
+            self.history.push(b);
+            self.used.clear();
+        } else if r1 != r2 {
+            findings.push((format!("the two nodes disagree on a block of the second node: {:?} / {:?}", r1, r2), None));
+        }
+    }
+
+    /// A transaction X of a payer is pooled; a third node that holds the chain up to the tip's
+    /// parent P builds A' (spending X's input differently) and B' on it; both nodes receive A'
+    /// (off chain) and B' (reorganisation): the tip is replaced and X conflicts with the EARLIER
+    /// block of the new branch.
+    fn do_fork(&mut self, rng: &mut Rng, log: &mut Vec<String>, findings: &mut Vec<(String, Option<&'static str>)>) {
+        if self.params.social_stake > 0 || self.history.len() < 3 {
+            return;
+        }
+        let tip = self.tip();
+        let parent = self.history[self.history.len() - 2].clone();
+        let hb = self.params.heartbeat;
+        if tip.timestamp < parent.timestamp + 2 * hb {
+            return;
+        }
+        // X: spends an output that exists at P and is not about to be rebroadcast at either height
+        let payer = rng.range(2, 5) as usize;
+        let cand: Vec<Slip> = self.free(payer, false).into_iter().filter(|s| s.block_id < tip.id).collect();
+        let src_next = self.rebroadcast_source();
+        let cand: Vec<Slip> = cand.into_iter().filter(|s| src_next == 0 || s.block_id > src_next).collect();
+        let o = match cand.first() {
+            Some(o) => o.clone(),
+            None => return,
+        };
+        let other: Option<(usize, Slip)> = (2..6usize)
+            .filter(|p| *p != payer)
+            .filter_map(|p| self.free(p, false).into_iter().filter(|s| s.block_id < tip.id && (src_next == 0 || s.block_id > src_next)).next().map(|s| (p, s)))
+            .next();
+        let (p2, o2) = match other {
+            Some(x) => x,
+            None => return,
+        };
+        self.used.insert(Rig::key_of(&o));
+        let x = self.build_transfer(&o, payer, 700, 1);
+        let pooled = self.submit(x);
+        let xprime = self.build_transfer(&o, payer, 900, 0);
+        let y = self.build_transfer(&o2, p2, 100, 0);
+        // the third node with the chain up to P
+        let mut alt = Node::new(&self.params, 9);
+        for b in &self.history[..self.history.len() - 1] {
+            let r = bo(&self.rt, alt.add_block(b.clone()));
+            if r != AddClass::OnChain {
+                self.stat("fork:replay-failed");
+                return;
+            }
+        }
+        self.nonce += 1;
+        let a_ts = tip.timestamp;
+        let gt_a = Rig::needs_gt(&alt, parent.hash);
+        let a = match bo(&self.rt, make_block(&alt, parent.hash, a_ts, vec![xprime], gt_a, self.nonce)) {
+            Ok(b) => b,
+            Err(_) => {
+                self.stat("fork:create-failed");
+                return;
+            }
+        };
+        if bo(&self.rt, alt.add_block(a.clone())) != AddClass::OnChain {
+            self.stat("fork:A-invalid");
+            return;
+        }
+        self.nonce += 1;
+        let gt_b = Rig::needs_gt(&alt, a.hash);
+        let bb = match bo(&self.rt, make_block(&alt, a.hash, a_ts + 2 * hb + 5_000, vec![y], gt_b, self.nonce)) {
+            Ok(b) => b,
+            Err(_) => {
+                self.stat("fork:create-failed");
+                return;
+            }
+        };
+        if bo(&self.rt, alt.add_block(bb.clone())) != AddClass::OnChain {
+            self.stat("fork:B-invalid");
+            return;
+        }
+        let ra1 = bo(&self.rt, self.prod.add_block(a.clone()));
+        let ra2 = bo(&self.rt, self.peer.add_block(a.clone()));
+        let rb1 = bo(&self.rt, self.prod.add_block(bb.clone()));
+        let rb2 = bo(&self.rt, self.peer.add_block(bb.clone()));
+        let adopted = rb1 == AddClass::OnChain && rb2 == AddClass::OnChain;
+        self.stat(&format!("fork:{}", if adopted { "adopted" } else { "not-adopted" }));
+        let still = self.prod.mempool.transactions.values().any(|t| t.from.iter().any(|s| s.amount > 0 && Rig::key_of(s) == Rig::key_of(&o)));
+        log.push(format!(
+            "{{\"op\":\"fork-replaces-tip\",\"pooled_tx_spends\":\"{}:{}:{} amount {}\",\"pooled\":{},\"A\":[\"{:?}\",\"{:?}\"],\"B\":[\"{:?}\",\"{:?}\"],\"conflicting_tx_still_pooled\":{}}}",
+            o.block_id, o.tx_ordinal, o.slip_index, o.amount, pooled, ra1, ra2, rb1, rb2, still
+        ));
+        if ra1 != ra2 || rb1 != rb2 {
+            findings.push((format!("the two nodes disagree on the fork blocks: A' {:?}/{:?}, B' {:?}/{:?}", ra1, ra2, rb1, rb2), None));
+        }
+        if adopted {
+            self.history.pop();
+            self.history.push(a);
+            self.history.push(bb);
+            self.used.clear();
+        }
+    }
+
     // ------------------------------------------------------------ abstraction
     fn atx(&mut self, tx: &Transaction) -> Atx {
         let mut c = tx.clone();
@@ -523,6 +678,15 @@ impl Rig {
         let mut log: Vec<String> = vec![];
         let mut findings: Vec<(String, Option<&'static str>)> = vec![];
         for item in &spec.items {
+            self.apply_item(item, rng, &mut log);
+        }
+        if spec.peer_block {
+            self.do_peer_block(&mut log, &mut findings);
+        }
+        if spec.fork {
+            self.do_fork(rng, &mut log, &mut findings);
+        }
+        for item in &spec.items2 {
             self.apply_item(item, rng, &mut log);
         }
         self.apply_gt(spec.gt, &mut log);
@@ -921,6 +1085,18 @@ impl Rig {
                     diffs.push(format!("previous_block_unpaid: header {} / expected {}", fin.previous_block_unpaid, unpaid_expected));
                 }
 
+                let invalid_in_block: Vec<String> = fin
+                    .transactions
+                    .iter()
+                    .filter(|t| !t.validate(&self.peer.blockchain.utxoset, &self.peer.blockchain, true))
+                    .map(|t| {
+                        format!(
+                            "{} spending {:?}",
+                            ty_code(t.transaction_type),
+                            t.from.iter().filter(|s| s.amount > 0).map(|s| format!("{}:{}:{} amount {}", s.block_id, s.tx_ordinal, s.slip_index, s.amount)).collect::<Vec<_>>()
+                        )
+                    })
+                    .collect();
                 let atr_invalid_before = fin
                     .transactions
                     .iter()
@@ -1003,8 +1179,8 @@ impl Rig {
                 }
                 if outcome != Outcome::Accepted && !(r1 == AddClass::Panicked && r2 == AddClass::Panicked && !supply_ok) {
                     let what = format!(
-                        "own block {} on tip {} rejected (producer {:?}, second node {:?}); differences: {:?}",
-                        fin.id, tip.id, r1, r2, diffs
+                        "own block {} on tip {} rejected (producer {:?}, second node {:?}); differences: {:?}; transactions of the block that do not validate on the parent state: {:?}",
+                        fin.id, tip.id, r1, r2, diffs, invalid_in_block
                     );
                     if causes.is_empty() {
                         findings.push((what, None));
@@ -1014,6 +1190,7 @@ impl Rig {
                         }
                     }
                 } else {
+                    self.history.push(pristine.clone());
                     if !diffs.is_empty() {
                         findings.push((format!("block accepted although header and recomputed values differ: {:?}", diffs), None));
                     }
@@ -1281,7 +1458,24 @@ fn random_spec(rig: &Rig, plan: &Plan, rng: &mut Rng, round: usize) -> RoundSpec
         benign_gap(hb, rng)
     };
     let _ = round;
-    RoundSpec { items, gt, gap, label }
+    // other producers: the second node confirms the pool, or a two-block branch replaces the tip
+    let mut peer_block = false;
+    let mut fork = false;
+    let mut items2 = vec![];
+    if plan.stake == 0 && round >= 2 {
+        match rng.below(16) {
+            0 => {
+                peer_block = true;
+                items2.push(Item::Transfer { payer: rng.range(2, 5) as usize, fee: *rng.pick(&[0u64, 20, 300, 30_000]), hops: 1, biggest: false });
+            }
+            1 => {
+                fork = true;
+                items2.push(Item::Transfer { payer: rng.range(2, 5) as usize, fee: pick_fee(rng), hops: rng.below(3) as usize, biggest: false });
+            }
+            _ => {}
+        }
+    }
+    RoundSpec { peer_block, fork, items2, items, gt, gap, label }
 }
 
 fn scripted_spec(rig: &Rig, plan: &Plan, round: usize) -> Option<RoundSpec> {
@@ -1297,12 +1491,12 @@ fn scripted_spec(rig: &Rig, plan: &Plan, round: usize) -> Option<RoundSpec> {
         // the payout multiplier: large fees, tiny outputs looping, ticket every other block
         0 => {
             let items = (2..6usize).map(|p| Item::Transfer { payer: p, fee: 20_000, hops: 1, biggest: true }).collect();
-            Some(RoundSpec { items, gt: if round % 2 == 1 { GtSpec::Valid } else { GtSpec::None }, gap: big, label: "dust-profile".to_string() })
+            Some(RoundSpec { peer_block: false, fork: false, items2: vec![], items, gt: if round % 2 == 1 { GtSpec::Valid } else { GtSpec::None }, gap: big, label: "dust-profile".to_string() })
         }
         // an invalid golden ticket once the difficulty is positive
         1 => {
             let gt = if tip.difficulty >= 2 { GtSpec::Invalid } else { GtSpec::Valid };
-            Some(RoundSpec { items: plain_items, gt, gap: big, label: if gt == GtSpec::Invalid { "invalid-golden-ticket".to_string() } else { "warm-up".to_string() } })
+            Some(RoundSpec { peer_block: false, fork: false, items2: vec![], items: plain_items, gt, gap: big, label: if gt == GtSpec::Invalid { "invalid-golden-ticket".to_string() } else { "warm-up".to_string() } })
         }
         // issuance-typed transaction in the pool
         2 => {
@@ -1310,7 +1504,7 @@ fn scripted_spec(rig: &Rig, plan: &Plan, round: usize) -> Option<RoundSpec> {
             if round == 2 {
                 items.push(Item::Issuance);
             }
-            Some(RoundSpec { items, gt: if round % 2 == 1 { GtSpec::Valid } else { GtSpec::None }, gap: big, label: "issuance".to_string() })
+            Some(RoundSpec { peer_block: false, fork: false, items2: vec![], items, gt: if round % 2 == 1 { GtSpec::Valid } else { GtSpec::None }, gap: big, label: "issuance".to_string() })
         }
         // timestamp not after the tip's (bundle_block must decline, not panic)
         3 => {
@@ -1319,7 +1513,7 @@ fn scripted_spec(rig: &Rig, plan: &Plan, round: usize) -> Option<RoundSpec> {
                 3 => -1000,
                 _ => big,
             };
-            Some(RoundSpec { items: plain_items, gt: if round % 2 == 1 { GtSpec::Valid } else { GtSpec::None }, gap, label: "timestamp-order".to_string() })
+            Some(RoundSpec { peer_block: false, fork: false, items2: vec![], items: plain_items, gt: if round % 2 == 1 { GtSpec::Valid } else { GtSpec::None }, gap, label: "timestamp-order".to_string() })
         }
         // a pooled transaction spends an output that the next block rebroadcasts
         4 => {
@@ -1327,25 +1521,58 @@ fn scripted_spec(rig: &Rig, plan: &Plan, round: usize) -> Option<RoundSpec> {
             if rig.rebroadcast_source() > 0 && round % 3 == 0 {
                 items.push(Item::Clash { payer: 5, fee: 500 });
             }
-            Some(RoundSpec { items, gt: if round % 2 == 1 { GtSpec::Valid } else { GtSpec::None }, gap: big, label: "rebroadcast-clash".to_string() })
+            Some(RoundSpec { peer_block: false, fork: false, items2: vec![], items, gt: if round % 2 == 1 { GtSpec::Valid } else { GtSpec::None }, gap: big, label: "rebroadcast-clash".to_string() })
         }
         // staking on, window of 3: the producer's own staking transaction
-        5 => Some(RoundSpec { items: plain_items, gt: if round % 2 == 1 { GtSpec::Valid } else { GtSpec::None }, gap: big, label: "staking".to_string() }),
+        5 => Some(RoundSpec { peer_block: false, fork: false, items2: vec![], items: plain_items, gt: if round % 2 == 1 { GtSpec::Valid } else { GtSpec::None }, gap: big, label: "staking".to_string() }),
         // staking on, BlockStake-typed transaction from a peer
         6 => {
             let mut items = plain_items;
             if round == 2 {
                 items.push(Item::ForeignStake { payer: 5 });
             }
-            Some(RoundSpec { items, gt: if round % 2 == 1 { GtSpec::Valid } else { GtSpec::None }, gap: big, label: "foreign-stake".to_string() })
+            Some(RoundSpec { peer_block: false, fork: false, items2: vec![], items, gt: if round % 2 == 1 { GtSpec::Valid } else { GtSpec::None }, gap: big, label: "foreign-stake".to_string() })
+        }
+        // somebody else's block empties the pool, then a transaction with little work arrives and the
+        // producer is polled inside the work-gated window
+        11 => {
+            if round >= 2 && round % 2 == 0 {
+                Some(RoundSpec {
+                    items: vec![Item::Transfer { payer: 2, fee: 50_000, hops: 1, biggest: false }, Item::Transfer { payer: 3, fee: 40_000, hops: 1, biggest: false }],
+                    peer_block: true,
+                    fork: false,
+                    items2: vec![Item::Transfer { payer: 4, fee: 30, hops: 1, biggest: false }],
+                    gt: GtSpec::None,
+                    gap: (hb + hb / 5) as i64,
+                    label: "peer-block-empties-pool".to_string(),
+                })
+            } else {
+                Some(RoundSpec { peer_block: false, fork: false, items2: vec![], items: plain_items, gt: if round % 2 == 1 { GtSpec::Valid } else { GtSpec::None }, gap: big, label: "warm-up".to_string() })
+            }
+        }
+        // a reorganisation whose FIRST block spends the input of a pooled transaction
+        12 => {
+            if round >= 2 && round % 3 == 2 {
+                Some(RoundSpec {
+                    items: vec![],
+                    peer_block: false,
+                    fork: true,
+                    items2: vec![Item::Transfer { payer: 2, fee: 300, hops: 1, biggest: false }],
+                    gt: GtSpec::Valid,
+                    gap: big,
+                    label: "fork-invalidates-pooled-tx".to_string(),
+                })
+            } else {
+                Some(RoundSpec { peer_block: false, fork: false, items2: vec![], items: plain_items, gt: if round % 2 == 1 { GtSpec::Valid } else { GtSpec::None }, gap: big, label: "warm-up".to_string() })
+            }
         }
         // the only routing work of the pool sits in a transaction that create leaves out
         10 => {
             if rig.rebroadcast_source() > 0 && round % 2 == 0 {
                 let items = vec![Item::Clash { payer: 5, fee: 60_000 }, Item::Transfer { payer: 4, fee: 0, hops: 0, biggest: false }];
-                Some(RoundSpec { items, gt: GtSpec::None, gap: (hb + hb / 2) as i64, label: "left-out-transaction-carried-the-work".to_string() })
+                Some(RoundSpec { peer_block: false, fork: false, items2: vec![], items, gt: GtSpec::None, gap: (hb + hb / 2) as i64, label: "left-out-transaction-carried-the-work".to_string() })
             } else {
-                Some(RoundSpec { items: plain_items, gt: if round % 2 == 1 { GtSpec::Valid } else { GtSpec::None }, gap: big, label: "warm-up".to_string() })
+                Some(RoundSpec { peer_block: false, fork: false, items2: vec![], items: plain_items, gt: if round % 2 == 1 { GtSpec::Valid } else { GtSpec::None }, gap: big, label: "warm-up".to_string() })
             }
         }
         // dust genesis: a payer spends a tiny output in the block in which it is due
@@ -1354,7 +1581,7 @@ fn scripted_spec(rig: &Rig, plan: &Plan, round: usize) -> Option<RoundSpec> {
             if rig.rebroadcast_source() == 1 {
                 items.push(Item::Clash { payer: 2, fee: 500 });
             }
-            Some(RoundSpec { items, gt: if round % 2 == 1 { GtSpec::Valid } else { GtSpec::None }, gap: big, label: "dust-spend".to_string() })
+            Some(RoundSpec { peer_block: false, fork: false, items2: vec![], items, gt: if round % 2 == 1 { GtSpec::Valid } else { GtSpec::None }, gap: big, label: "dust-spend".to_string() })
         }
         // plain deep chain, work decided by the gate (gaps below two heartbeats)
         7 => {
@@ -1364,7 +1591,7 @@ fn scripted_spec(rig: &Rig, plan: &Plan, round: usize) -> Option<RoundSpec> {
                 2 => (2 * hb - 1) as i64,
                 _ => big,
             };
-            Some(RoundSpec { items: plain_items, gt: if round % 2 == 1 { GtSpec::Valid } else { GtSpec::None }, gap, label: "work-gated".to_string() })
+            Some(RoundSpec { peer_block: false, fork: false, items2: vec![], items: plain_items, gt: if round % 2 == 1 { GtSpec::Valid } else { GtSpec::None }, gap, label: "work-gated".to_string() })
         }
         _ => None,
     }
@@ -1417,7 +1644,7 @@ fn run_scenario(plan: &Plan, debug: bool) -> ScenarioOut {
                 let mut recovered = false;
                 let mut last = res.outcome;
                 for k in 0..3 {
-                    let retry = RoundSpec { items: vec![], gt: GtSpec::None, gap: spec.gap.max(1) + 7 * (k + 1), label: format!("retry-{}", k + 1) };
+                    let retry = RoundSpec { peer_block: false, fork: false, items2: vec![], items: vec![], gt: GtSpec::None, gap: spec.gap.max(1) + 7 * (k + 1), label: format!("retry-{}", k + 1) };
                     let r = rig.exec_round(&retry, &mut rng);
                     round += 1;
                     coq.push(format!("({})", r.coq));
@@ -1500,6 +1727,8 @@ fn main() {
         Plan { kind: 7, seed: 0, gp: 8, stake: 50_000, hb: 10_000, profile: 0, target_blocks: 20, adversarial: 0 },
         Plan { kind: 9, seed: 0, gp: 3, stake: 0, hb: 10_000, profile: 1, target_blocks: 8, adversarial: 0 },
         Plan { kind: 10, seed: 0, gp: 3, stake: 0, hb: 10_000, profile: 0, target_blocks: 9, adversarial: 0 },
+        Plan { kind: 11, seed: 0, gp: 5, stake: 0, hb: 10_000, profile: 0, target_blocks: 12, adversarial: 0 },
+        Plan { kind: 12, seed: 0, gp: 5, stake: 0, hb: 10_000, profile: 0, target_blocks: 14, adversarial: 0 },
     ];
     for _ in 0..nrandom {
         let gp = *rng.pick(&[3u64, 3, 5, 5, 8, 8, 20]);
@@ -1553,7 +1782,7 @@ fn main() {
                 if o.nontrivial && distinct.insert(o.coq.clone()) {
                     summary.nontrivial += 1;
                 }
-                if summary.samples.len() < 3 && o.rounds > 3 && idx >= 11 {
+                if summary.samples.len() < 3 && o.rounds > 3 && idx >= 13 {
                     summary.samples.push(o.desc.clone());
                 }
                 summary.case_descs.push(o.desc);
